@@ -232,10 +232,10 @@ Proof.
   - inversion H; subst; auto.
 Qed.
 
-Theorem execute_tx_indexed : forall s st t st' r o,
-  execute_tx s st t = (st', r, o) -> indexed (lg_events (x_log st)) -> indexed (lg_events (x_log st')).
+Lemma execute_tx_inner_indexed : forall s st t st' r o,
+  execute_tx_inner s st t = (st', r, o) -> indexed (lg_events (x_log st)) -> indexed (lg_events (x_log st')).
 Proof.
-  intros s st t st' r o. unfold execute_tx.
+  intros s st t st' r o. unfold execute_tx_inner.
   match goal with |- context [run s ?x [] (fst (tx_before t))] =>
     destruct (run s x [] (fst (tx_before t))) as [[st1 l1] o1] eqn:E1 end.
   intros H I.
@@ -249,4 +249,99 @@ Proof.
   destruct (snd (tx_after t)). { inversion H; subst; auto. }
   destruct (add (x_log st3) (std_req t success)) eqn:E4; inversion H; subst; auto.
   simpl. eapply push_indexed; eauto.
+Qed.
+
+Theorem execute_tx_indexed : forall s st t st' r o,
+  execute_tx s st t = (st', r, o) -> indexed (lg_events (x_log st)) -> indexed (lg_events (x_log st')).
+Proof.
+  intros s st t st' r o. unfold execute_tx, snap. simpl.
+  match goal with |- context [execute_tx_inner s ?x t] => destruct (execute_tx_inner s x t) as [[st1 r1] o1] eqn:E end.
+  intros H I. assert (I1 : indexed (lg_events (x_log st1))) by (eapply execute_tx_inner_indexed; eauto).
+  inversion H; subst. simpl. destruct r; auto.
+  unfold restore. destruct (nlookup (vs_saved (x_root st1)) (vs_count (x_root st))); auto.
+Qed.
+
+(* ---- an invalid transaction leaves no trace *)
+(* module code that restores only snapshots of views (the context-level ids are relative to the context's history) *)
+Definition no_root_restore (a : action) : Prop := match a with ARestore O _ => False | _ => True end.
+Definition tx_no_root_restore (t : tx) : Prop :=
+  Forall no_root_restore (fst (tx_before t)) /\
+  match tx_command t with Some c => Forall no_root_restore (fst c) | None => True end /\
+  Forall no_root_restore (fst (tx_after t)).
+
+Definition outer_present (sid : nat) (c0 : cache) (v : vsnaps) : Prop :=
+  nlookup (vs_saved v) sid = Some c0 /\ (sid < vs_count v)%nat.
+
+Lemma step_present : forall s st ls a st' ls' o sid c0, no_root_restore a ->
+  step s st ls a = (st', ls', o) -> outer_present sid c0 (x_root st) -> outer_present sid c0 (x_root st').
+Proof.
+  intros s st ls a st' ls' o sid c0 Ha H [I1 I2]. destruct a; simpl in H, Ha.
+  - inversion H; subst; split; auto.
+  - inversion H; subst; split; auto.
+  - destruct (db_get s (x_cache st) k). inversion H; subst; split; auto.
+  - destruct (if unrevertible then add_unrevertible (x_log st) r else add (x_log st) r); inversion H; subst; split; auto.
+  - destruct view; unfold snap in H; inversion H; subst; try (split; auto; fail).
+    split; simpl; [|lia]. destruct (Nat.eqb (vs_count (x_root st)) sid) eqn:E.
+    + apply Nat.eqb_eq in E. lia.
+    + rewrite nlookup_nremove_other; auto. lia.
+  - destruct view; try tauto. unfold restore in H.
+    destruct (nlookup (vs_saved (local_get ls (S view))) id); inversion H; subst; split; auto.
+Qed.
+
+Lemma run_present : forall s acts st ls st' ls' o sid c0, Forall no_root_restore acts ->
+  run s st ls acts = (st', ls', o) -> outer_present sid c0 (x_root st) -> outer_present sid c0 (x_root st').
+Proof.
+  induction acts; simpl; intros. - inversion H0; subst; auto.
+  - inversion H; subst.
+    destruct (step s st ls a) as [[st1 ls1] o1] eqn:E1.
+    destruct (run s st1 ls1 acts) as [[st2 ls2] o2] eqn:E2. inversion H0; subst.
+    eapply IHacts; eauto. eapply step_present; eauto.
+Qed.
+
+Lemma command_phase_present : forall s st c st' r o sid c0, Forall no_root_restore (fst c) ->
+  command_phase s st c = (st', r, o) -> outer_present sid c0 (x_root st) -> outer_present sid c0 (x_root st').
+Proof.
+  intros s st [acts fails] st' r o sid c0 Hw. unfold command_phase. simpl fst in *. simpl snd. unfold snap. simpl.
+  match goal with |- context [run s ?x [] acts] => set (st1 := x); destruct (run s st1 [] acts) as [[st2 ls2] o2] eqn:E end.
+  intros H [P1 P2].
+  assert (Q1 : outer_present sid c0 (x_root st1)).
+  { unfold st1. split; simpl; [|lia]. destruct (Nat.eqb (vs_count (x_root st)) sid) eqn:B.
+    - apply Nat.eqb_eq in B. lia. - rewrite nlookup_nremove_other; auto. lia. }
+  destruct (run_present _ _ _ _ _ _ _ _ _ Hw E Q1) as [R1 R2].
+  assert (Hne : sid <> vs_count (x_root st)) by lia.
+  destruct fails.
+  - unfold restore in H. destruct (nlookup (vs_saved (x_root st2)) (vs_count (x_root st))); inversion H; subst.
+    + split; simpl; auto. rewrite !nlookup_nremove_other; auto.
+    + split; auto.
+  - inversion H; subst. split; simpl; auto. rewrite nlookup_nremove_other; auto.
+Qed.
+
+(* invalid_transaction_is_noop_on_state: whatever the hooks and the command wrote before the transaction turned out to
+   be invalid, the staged store is exactly what it was when ExecuteTransaction was entered *)
+Theorem invalid_transaction_is_noop_on_state : forall s st t st' o, tx_no_root_restore t ->
+  execute_tx s st t = (st', XInvalid, o) -> x_cache st' = x_cache st.
+Proof.
+  intros s st t st' o [W1 [W2 W3]]. unfold execute_tx, snap. simpl.
+  set (st0 := {| x_cache := x_cache st;
+                 x_root := {| vs_count := S (vs_count (x_root st));
+                              vs_saved := (vs_count (x_root st), x_cache st) :: nremove (vs_saved (x_root st)) (vs_count (x_root st)) |};
+                 x_log := x_log st |}).
+  destruct (execute_tx_inner s st0 t) as [[st1 r1] o1] eqn:E. intro H. inversion H; subst r1 o1. clear H.
+  assert (P0 : outer_present (vs_count (x_root st)) (x_cache st) (x_root st0)).
+  { unfold st0. split; simpl; [|lia]. rewrite Nat.eqb_refl. auto. }
+  assert (P1 : outer_present (vs_count (x_root st)) (x_cache st) (x_root st1)).
+  { revert E. unfold execute_tx_inner.
+    match goal with |- context [run s ?x [] (fst (tx_before t))] =>
+      set (sta := x); destruct (run s sta [] (fst (tx_before t))) as [[sa la] oa] eqn:E1 end.
+    assert (Pa : outer_present (vs_count (x_root st)) (x_cache st) (x_root sa)) by (eapply run_present; [exact W1 | exact E1 | exact P0]).
+    destruct (snd (tx_before t)). { intro H; inversion H; subst; auto. }
+    destruct (tx_command t) as [c|]. 2:{ intro H; inversion H; subst; auto. }
+    destruct (command_phase s sa c) as [[sb [success|]] ob] eqn:E2.
+    2:{ intro H; inversion H; subst. exact (command_phase_present _ _ _ _ _ _ _ _ W2 E2 Pa). }
+    assert (Pb : outer_present (vs_count (x_root st)) (x_cache st) (x_root sb)) by exact (command_phase_present _ _ _ _ _ _ _ _ W2 E2 Pa).
+    destruct (run s sb [] (fst (tx_after t))) as [[sc lc] oc] eqn:E3.
+    assert (Pc : outer_present (vs_count (x_root st)) (x_cache st) (x_root sc)) by exact (run_present _ _ _ _ _ _ _ _ _ W3 E3 Pb).
+    destruct (snd (tx_after t)). { intro H; inversion H; subst; auto. }
+    destruct (add (x_log sc) (std_req t success)); intro H; inversion H; subst; auto. }
+  destruct P1 as [L _]. unfold restore. rewrite L. simpl. auto.
 Qed.
